@@ -62,6 +62,7 @@ pub fn any_lat(r: &mut Rng) -> f64 {
         3 => -66.56,
         4 => 0.0,
         5 => r.range(60.0, 90.0) * r.sign(),
+        6 => *r.pick(&[88.95, 89.45, 89.93, 89.99, 84.7, 87.0]) * r.sign(),
         _ => r.range(-90.0, 90.0),
     }
 }
